@@ -216,6 +216,15 @@ func runC13(c *Ctx, r *Rec) {
 	r.floor("D1-capacity-at-birth", 1)
 	checkStorageOwned(c, r, "D1-storage-owned", info, stk, cls, storage)
 
+	// ---- D1c nobody creates a stack and pushes more values on it than the capacity it was given
+	for _, role := range []string{"collection", "cdcn", "module"} {
+		for _, fd := range c.allFuncDecls(role) {
+			if fd.Body != nil {
+				checkBoundedFill(c, r, "D1-no-overfill", c.info(role), fd, "stack")
+			}
+		}
+	}
+
 	// ---- D2 guards, D3 ends
 	ms := c.methodsOf(stk)
 	capSym := sym(objKey(capF))
